@@ -17,6 +17,12 @@ W_OPS = [O + c + ".__init__" for c in ("Concat", "Either", "Enclose")]
 W_GROUPS = [G + c + ".__init__" for c in ("Capture", "Group", "Backreference", "Conditional")]
 W_ANCH = [A + c + ".__init__" for c in ("MatchAtStart", "MatchAtEnd", "MatchAtLineStart", "MatchAtLineEnd", "WordBoundary", "NonWordBoundary")]
 W_LOOK = [A + c + ".__init__" for c in ("FollowedBy", "PrecededBy", "EnclosedBy", "NotFollowedBy", "NotPrecededBy", "NotEnclosedBy")]
+# G11: the exception classes' constructors are total (contracts/exc.py) - `raise X(...)` is modelled as raising X
+EXC = ["pregex.core.exceptions." + c + ".__init__" for c in (
+    "InvalidArgumentValueException", "InvalidArgumentTypeException", "NotEnoughArgumentsException", "InvalidCapturingGroupNameException",
+    "CannotBeNegatedException", "CannotBeUnionedException", "CannotBeSubtractedException", "GlobalWordCharSubtractionException",
+    "EmptyClassException", "InvalidRangeException", "CannotBeRepeatedException", "NonFixedWidthPatternException",
+    "EmptyNegativeAssertionException")]
 COMBINATORS = HELPERS + G1 + G2 + G3 + G4A + G4L + W_QUANT + W_OPS + W_GROUPS + W_ANCH + W_LOOK
 TRUST = ["R1 literal units (validated exhaustively over all code points each run)", "R2 compositionality (placeholders of the worst "
          "syntactic category the class invariant allows)", "R3 quantifiers", "R4 grouping", "R5 groups", "R6 zero-width items",
